@@ -311,6 +311,8 @@ def parse_model_output(text):
             cur.coll = t[2] == "coll=1"
         elif tag == "HEAD":
             cur.head = unhx(t[1])
+        elif tag == "HEADRAW":
+            cur.headraw = unhx(t[1])
         elif tag == "REF":
             cur.refs[unhx(t[1])] = unhx(t[2])
         elif tag == "IDX":
@@ -410,7 +412,7 @@ def compare_step(r, m):
         if s.files != m.files:
             d.append("work tree files differ")
         return d
-    if s.head_raw != b"ref: refs/heads/" + m.head:
+    if s.head_raw != m.headraw:
         d.append("HEAD: goit=%r model=%r" % (s.head_raw, m.head))
     refs = {k: (v or b"") for k, v in s.refs.items()}
     mrefs = {k: v.hex().encode() for k, v in m.refs.items()}
